@@ -104,3 +104,87 @@ def convolve_stub(c):
         yield
     finally:
         B.signal = saved
+
+
+class _MaskedStub:
+    def __init__(self, data, mask):
+        import numpy as _np
+
+        from .symnp import _strip
+
+        self.data = _np.asarray(_strip(data), dtype=object)
+        self.mask = _np.asarray(mask, dtype=bool)
+        self.shape = self.data.shape
+
+    def argmin(self):
+        """index (C order) of the first minimum over the unmasked entries, like numpy.ma"""
+        best = None
+        flat_d, flat_m = self.data.reshape(-1), self.mask.reshape(-1)
+        for i in range(len(flat_d)):
+            if flat_m[i]:
+                continue
+            if best is None or bool(flat_d[i] < flat_d[best]):
+                best = i
+        if best is None:
+            raise E.OutsideClaim("argmin of a fully masked array")
+        return best
+
+
+class _MaStub:
+    def __init__(self, real):
+        self._real = real
+
+    def __getattr__(self, name):
+        return getattr(self._real, name)
+
+    def array(self, data, mask=None, **k):
+        return _MaskedStub(data, mask)
+
+
+class _FrameStub:
+    """dict-of-columns stand-in for the DataFrame that PointsToCuntzMST builds (scalars broadcast like pandas does)."""
+
+    class _Col:
+        def __init__(self, v):
+            self.v = v
+
+        def to_numpy(self):
+            return self.v
+
+    def __init__(self, dic):
+        import numpy as _np
+
+        n = max(len(v) for v in dic.values() if hasattr(v, "__len__"))
+        self.cols = {k: (v if hasattr(v, "__len__") else _np.full(n, v)) for k, v in dic.items()}
+        self.shape = (n, len(dic))
+
+    def __getitem__(self, k):
+        return self._Col(self.cols[k])
+
+
+class _PdStub:
+    def __init__(self, real):
+        self._real = real
+
+    def __getattr__(self, name):
+        return getattr(self._real, name)
+
+    class DataFrame:
+        @staticmethod
+        def from_dict(dic):
+            return _FrameStub(dic)
+
+
+@contextmanager
+def mst_stubs(c):
+    import swcgeom.transforms.mst as M
+
+    if c.mode != "sym":
+        yield
+        return
+    saved = (M.ma, M.pd)
+    M.ma, M.pd = _MaStub(M.ma), _PdStub(M.pd)
+    try:
+        yield
+    finally:
+        M.ma, M.pd = saved
